@@ -78,7 +78,7 @@ def shards(tier):
 
 def floors(tier):
     return {"cases": 20000, "insertions": 20000, "insertions_depth2plus": 1000, "would_fail_values": 8000,
-            "next_to_ref": 1000, "base_uri_cases": 100, "own_id_next_to_ref": 100, "cases_with_errors": 5000, "foreign_names_used": 150}
+            "next_to_ref": 1000, "base_uri_cases": 100, "own_id_next_to_ref": 100, "empty_or_hash_ref_cases": 1000, "cases_with_errors": 5000, "foreign_names_used": 150}
 
 
 def errors_of(d, schema, inst, resolver=None):
@@ -216,6 +216,29 @@ def base_uri_cases(ctx, d, rng):
                     inst, resolver_factory=rf)
 
 
+def empty_ref_cases(ctx, d, rng):
+    """Siblings of `$ref` are ignored whatever the reference string is - including the empty
+    reference "" (same document, like "#") and "#"."""
+    own = impl.IDKW[d]
+    for ref in ("", "#", "#/definitions/a", "#/properties/child"):
+        for with_id in (False, True):
+            S = {"definitions": {"a": {"type": "object"}}, "type": "object",
+                 "properties": {"child": {"$ref": ref}, "n": {"type": "integer"}}}
+            if with_id:
+                S[own] = "http://base.example/root.json"
+            for name, val in ASSERTING:
+                if d == 3 and name == "required":
+                    continue
+                S2 = dict(S, properties=dict(S["properties"], child={"$ref": ref, name: val}))
+                S3 = dict(S, properties=dict(S["properties"], child={name: val, "$ref": ref}))
+                log = [{"path": ["properties", "child"], "name": name, "would_fail": True, "next_to_ref": True, "depth": 1}]
+                for inst in ({"child": {"n": 1}}, {"child": {"child": {"n": "x"}}}, {"child": 7}, {"child": {"child": 7}}, {"n": 1}):
+                    ctx.count("next_to_ref")
+                    ctx.count("empty_or_hash_ref_cases")
+                    compare(ctx, d, S, S2, log, inst)
+                    compare(ctx, d, S, S3, log, inst)
+
+
 def run(ctx):
     impl.quiet()
     used = set()
@@ -223,6 +246,7 @@ def run(ctx):
     for d in impl.DRAFTS:
         if ctx.mine(d):
             base_uri_cases(ctx, d, rr)
+            empty_ref_cases(ctx, d, rr)
     # deterministic: every foreign name of every draft at the root and one level down, would-fail value
     idx = 0
     for d in impl.DRAFTS:
